@@ -73,3 +73,32 @@ reg('C03', [('verus', 'isaac'), ('verus', 'isaac64')], level='proof',
     explanation='ind/rngstep/generate against Jenkins\' isaac()/isaac64() (all eight unrolled rngstep call sites, both halves, results in reference hand-out order), mix/init against randinit (golden-ratio premix re-derived by compute), seed_from_u64 key layout and single pass',
     assumptions=['from_seed (iterator zip) and from_rng/try_from_rng (unsafe raw-parts) are decided by Kani harnesses with a recording init stub (thorough tier)',
                  'IsaacRng/Isaac64Rng forward to rand_core BlockRng/BlockRng64 (Kani, thorough tier)'])
+
+TB_KANI = ['T9 Kani 0.68 / CBMC 6.11: every harness runs with unwinding assertions; kani::assume only bounds an index or excludes a documented precondition']
+ALL_UNITS = [('verus', u) for u in ('xoshiro', 'xorshift', 'jitter', 'hc128', 'isaac', 'isaac64')]
+
+reg('C05', [('verus', 'xoshiro'), ('verus', 'xorshift'), ('verus', 'jitter'), ('verus', 'isaac'), ('verus', 'isaac64'), ('kani', 'blockrng')],
+    level='proof', trusted_base=TB_COMMON + TB_RC + TB_JIT + TB_KANI,
+    explanation='trait-level stream-projection contracts (s32/s64/sfill) on every generator; rand_core next_u64_via_u32 / fill_bytes_via_next verified once, generically, for all n (deterministic and relational flavour); BlockRng/BlockRng64 next_u32/next_u64 complete on the real rand_core (dummy core with arbitrary blocks); BlockRng fill_bytes bounded (thorough tier)',
+    assumptions=['BlockRng/BlockRng64::fill_bytes(n) is a bounded stand-in (2-word blocks, n <= 2 blocks + tail), never counted as proved; parametricity in the block length is argued',
+                 'history quantifier: by induction over the per-call contracts (forward-only shape of the recursion)'])
+reg('C08', [('verus', 'xoshiro'), ('verus', 'xorshift'), ('kani', 'std_shims'), ('kani', 'rc_glue')],
+    level='proof', trusted_base=TB_COMMON + TB_RC + TB_KANI,
+    explanation='from_seed: zero seed remapped exactly as documented, every other seed verbatim; seed_from_u64 == from_seed of the SplitMix64 expansion; XorShift from_rng/try_from_rng redraw loop; lemma: no seeding path yields the zero state',
+    assumptions=['D11 (all-zero test) and rand_core default from_rng are cross-checked by Kani on the real code'])
+reg('C09', [('verus', 'xoshiro'), ('verus', 'xorshift'), ('verus', 'isaac'), ('verus', 'isaac64'), ('verus', 'hc128'),
+            ('kani', 'rc_glue'), ('kani', 'seeding'), ('kani', 'hc128_incrate'), ('kani', 'isaac_incrate'), ('kani', 'isaac64_incrate')],
+    level='proof', trusted_base=TB_COMMON + TB_RC + TB_KANI,
+    explanation='seed_from_u64 == from_seed(documented expansion) (Verus for the xoshiro family and ISAAC; Kani against a PCG32 twin for XorShiftRng and Hc128Rng); from_rng/try_from_rng: exactly one seed worth of bytes, same generator, source error returned unchanged (Kani with recording sources; XorShift redraw loop in Verus)')
+reg('C10', ALL_UNITS, level='proof', trusted_base=TB_COMMON + TB_RC,
+    explanation='clone copies every field, == holds iff all state is equal (derived and hand-written impls, incl. Hc128Rng core+index); every operation under contract determines result and final state from the old state (the state clauses), so equal states have identical futures',
+    assumptions=['IsaacRng/Isaac64Rng derive Clone over rand_core BlockRng (dependency derive output); they have no PartialEq'])
+reg('C11', [('kani', 'serde_rt')], level='proof', trusted_base=TB_KANI + ['serde derive output and bincode are symbolically executed as ordinary code'],
+    explanation='bincode round trip through the real derive output for an arbitrary state of each of the 16 small generators: restored == original (full-state equality, C10) and the original is untouched',
+    assumptions=['IsaacRng / Isaac64Rng (token-format harness) are in the thorough tier only if they finish; see evidence'])
+reg('C17', [('kani', 'debug'), ('kani', 'hc128_incrate'), ('kani', 'isaac_incrate'), ('kani', 'isaac64_incrate')], level='proof', trusted_base=TB_KANI,
+    explanation='{:?} and {:#?} of an arbitrary state written into a fixed sink equal the expected literal byte for byte (formatting loops are bounded by the literal length)')
+reg('C18', ALL_UNITS + [('static', 'cfg_invariance')], level='proof', trusted_base=TB_COMMON + ['optimiser/code generator correctness (T1): no source-level method can do without it'],
+    explanation='(1) no overflow/debug check can fire in any function under contract (Verus built-in obligations), so dev and release execute the same arithmetic; (2) every function has identical expanded text under {debug assertions on, off} x {serde off, on}')
+reg('C19', [('static', 'shared_state_scan'), ('static', 'send_sync')], level='other', trusted_base=['rustc auto-trait checking', 'Rust aliasing rules for &mut self'],
+    explanation='frame obligations: every function of the expanded crates mentions no static / interior-mutable / ambient state (JITTER_ROUNDS only in JitterRng::new); Send + Sync for all 23 generator/core types discharged by rustc; interleavings are not explored: with exclusive &mut self and an empty global frame there is nothing for a schedule to influence')
